@@ -31,7 +31,7 @@ EXHAUSTIVE = {"quick": False, "thorough": False}
 def plan(tier, seed):
     if tier == "quick":
         return [{"histories": 150}]
-    return [{"histories": 5000, "salt": i} for i in range(16)]
+    return [{"histories": 5000, "salt": i} for i in range(16)] + [{"histories": 0, "repo_tests": True}]
 
 
 def reach(root):
@@ -282,6 +282,10 @@ def one_history(ctx, gen, hno):
 
 
 def run(ctx, params):
+    if params.get("repo_tests"):
+        from vlib import repotests
+        repotests.run(ctx, PROPERTY)
+        return
     gen = treegen.Gen()
     Node.store.clear()  # start every shard from an empty registry (harness hygiene, not an operation under test)
     for h in range(params["histories"]):
